@@ -122,6 +122,8 @@ class Scenario:
                 o["buf"] = list(n._buffer.values())
             elif k == "partition":
                 o["buf"] = [[key if key is not None else -1, list(v)] for key, v in n._buffer.items() if v]
+                o["armed"] = sorted((0 if key is None else key) for key, h in n._callbacks.items()
+                                    if getattr(h, "_scheduled", False) and not h.cancelled())
             elif k == "latest":
                 o["slot"] = list(n.next)
             elif k == "zip":
